@@ -14,7 +14,7 @@ from flow.record.fieldtypes import fieldtype_for_value
 from flow.record.selector import make_selector
 from flow.record.utils import is_stdout
 
-from .base import RecordDescriptor, RecordReader
+from .base import Record, RecordDescriptor, RecordReader
 from .packer import RecordPacker
 
 log = logging.getLogger(__package__)
@@ -131,9 +131,12 @@ class RecordStreamReader:
                     continue
                 if isinstance(obj, RecordDescriptor):
                     self.packer.register(obj)
-                else:
+                elif isinstance(obj, Record):
                     if not self.selector or self.selector.match(obj):
                         yield obj
+                else:
+                    # A damaged (misaligned) stream can decode to arbitrary msgpack objects, never pass those on as records
+                    raise IOError("Unexpected object in RecordStream: {}".format(type(obj).__name__))
         except EOFError:
             pass
 
